@@ -18,7 +18,7 @@ from .common import symbolic_run, Vals
 from .refs_clauses import Clauses
 
 PROPERTY = "C17"
-LAYOUTS = {"a2": [2], "a1-a1": [1, 1], "a2-a1": [2, 1], "s-a2": [0, 2], "a3": [3], "a2-a2": [2, 2], "a1-a3": [1, 3]}
+LAYOUTS = {"m22-a1": [(2, 2), 1], "a2": [2], "a1-a1": [1, 1], "a2-a1": [2, 1], "s-a2": [0, 2], "a3": [3], "a2-a2": [2, 2], "a1-a3": [1, 3]}
 BOUNDS = {
     "quick": dict(layouts=["a2", "a1-a1", "a2-a1", "s-a2"], bisection_steps=2, outer_iterations=1,
                   bounds=["scalar", "per-variable array"], maxvol=["symbolic", "None (= initial volume)"],
@@ -67,6 +67,7 @@ def items(tier):
     add("a2-a1", move="vector", bnd="vector")
     add("a2-a1", pos=True)
     add("a2-a2", alias=True)       # both variable signals initialised from one user array
+    add("m22-a1")                  # a 2-D variable array (offsets count entries, not rows)
     if tier == "thorough":
         add("a3", pos=True, bnd="vector")
         add("a2", steps=3)
@@ -175,7 +176,7 @@ def sc_oc(V, P, cfg):
     from pymoto import routines as rt
     Mod = _user_module()
     sizes = LAYOUTS[cfg["layout"]]
-    lens = [max(1, k) for k in sizes]
+    lens = [int(np.prod(k)) if isinstance(k, tuple) else max(1, k) for k in sizes]
     n = sum(lens)
     cum = [0]
     for ln in lens:
@@ -218,8 +219,8 @@ def sc_oc(V, P, cfg):
             coef.append(V.real("c%d" % k, positive=True, default=1.0) if sz == 0 else V.reals("c%d" % k, sz, positive=True, default=1.0))
     xflat, cflat = [], []
     for xv, cv in zip(x0, coef):
-        xflat += list(xv) if isinstance(xv, np.ndarray) else [xv]
-        cflat += list(cv) if isinstance(cv, np.ndarray) else [cv]
+        xflat += list(np.asarray(xv, dtype=object if V.symbolic else float).reshape(-1)) if isinstance(xv, np.ndarray) else [xv]
+        cflat += list(np.asarray(cv, dtype=object if V.symbolic else float).reshape(-1)) if isinstance(cv, np.ndarray) else [cv]
     if V.symbolic:
         for j in range(n):
             V.assume(xmin_l[j] <= xflat[j])
@@ -279,12 +280,15 @@ def sc_oc(V, P, cfg):
         for k in range(len(sizes)):
             if isinstance(x0[k], np.ndarray):
                 same.append(isinstance(final[k], np.ndarray) and final[k].shape == x0[k].shape
-                            and all(a is b for a, b in zip(final[k], x0[k])))
+                            and all(a is b for a, b in zip(np.asarray(final[k], dtype=object).reshape(-1),
+                                                           np.asarray(x0[k], dtype=object).reshape(-1))))
             else:
                 same.append(final[k] is x0[k])
         written = not all(same)
     else:
-        written = any(np.any(np.asarray(final[k], dtype=float) != np.asarray(x0[k], dtype=float)) for k in range(len(sizes)))
+        written = any(np.size(final[k]) != np.size(x0[k]) or
+                      np.any(np.asarray(final[k], dtype=float).reshape(-1) != np.asarray(x0[k], dtype=float).reshape(-1))
+                      for k in range(len(sizes)))
     obs["written"] = int(written)
     for j in range(n):
         if fl[j] is None:
